@@ -82,6 +82,14 @@ def state_bases(env, n, tier):
             c.herald(ph, hm)
             yield f"generic {2 * n + 1}-mode unitary with herald({ph}, {hm}) set on the base circuit", c
     if env.mode == "native" and n <= 2:
+        # heralds declared on the base circuit whose photon enters on one mode and leaves on ANOTHER (also two of them crossing)
+        from vf.tasks.t_history import U as _haar2
+        for hs in ([(0, 0, 2 * n)], [(1, 2 * n, 0)], [(1, n, 2 * n)], [(0, 0, 2 * n + 1), (1, 2 * n + 1, 0)]):
+            c = lw.Unitary(_haar2(2 * n + len(hs), 13 + len(hs) + hs[0][1]))
+            for h in hs:
+                c.herald(*h)
+            yield f"generic {2 * n + len(hs)}-mode unitary with heralds (photons, in, out) = {hs} declared on the base circuit", c
+    if env.mode == "native" and n <= 2:
         # two (or three) ancilla modes BETWEEN the two rails of one qubit: heralds declared on the base circuit itself, and ancillas that come
         # from a heralded sub-circuit (internal modes of the base circuit)
         from vf.tasks.t_history import U as _haar
@@ -171,7 +179,7 @@ def check_state_tomography(env, n, tier):
         matched = {}
         for k, c in enumerate(received):
             for s in settings:
-                if _is_base_then(env, c, base, U0, [M[g] for g in s], n):
+                if _is_base_then(env, c, base, U0, [M[g] for g in s], n, in_vis):
                     matched.setdefault(s, []).append(k)
         env.check_true(f"{name}.requested-circuits[n={n};{label}]", ok_count and all(len(matched.get(s, [])) == 1 for s in settings),
                        note="the callback receives exactly one circuit per measurement setting, each being the base circuit followed by the single-qubit basis changes (up to a phase per qubit)",
@@ -193,6 +201,32 @@ def check_state_tomography(env, n, tier):
             want = real_np.outer(amps2, real_np.conj(amps2)) / norm2
             fid = _fid(tomo, want)
             env.check_true(f"{name}.fidelity[n={n};{label}]", abs(fid - 1) < 1e-6, note="fidelity one against the expected matrix", model=dict(fidelity=float(fid)))
+
+
+def check_live_parameters(env, n):
+    """the circuits handed to the callback are bound to the base circuit's Parameter objects: a callback that applies its own settings to them before
+    measuring (e.g. from experiment_args) measures the state for THOSE settings"""
+    import lightworks as lw
+    from lightworks import qubit, tomography
+    name = "lightworks/tomography/state_tomography.py:StateTomography.process#xsym"
+    p = lw.Parameter(0.3)
+    base = lw.Circuit(2 * n)
+    base.add(qubit.H(), 0)
+    base.ps(1, p)
+    if n == 2:
+        base.add(qubit.CNOT(), 0)
+    in_vis = fock.dual_rail((0,) * n)
+
+    def experiment(circuits):
+        p.set(1.1)                      # the experimenter's setting, applied when the measurement is done
+        return [noiseless_result(env, c, in_vis, n) for c in circuits]
+    rho = tomography.StateTomography(n, base, experiment).process()
+    amps = dual_amplitudes(env, base, in_vis, n)        # base circuit with the parameter at 1.1
+    norm = sum((a * conj(a) for a in amps), env.const(0))
+    d = 2 ** n
+    env.check_all_zero(f"{name}.density-matrix[n={n};parameter set by the callback]",
+                       [((a, b), rho[a, b] * norm - amps[a] * conj(amps[b])) for a in range(d) for b in range(d)],
+                       note="the measured circuits follow the base circuit's Parameter objects (they are not frozen copies)")
 
 
 def _fid(tomo, ref):
@@ -217,8 +251,36 @@ def _eqmat(env, A, B):
     return True
 
 
-def _is_base_then(env, c, base, U0, ops, n):
+def _is_base_then(env, c, base, U0, ops, n, in_vis=None):
     """c.U_full == (ops on the qubit modes, identity on ancillas) @ base.U_full, allowing one phase per qubit operator"""
+    if c.n_modes == base.n_modes and c.heralds != base.heralds and in_vis is not None and c.input_modes == base.input_modes and \
+            sorted(c.heralds["input"].values()) == sorted(base.heralds["input"].values()):
+        # a herald that leaves the base circuit on another mode than it entered is re-routed when the base circuit is placed in the measurement circuit (its
+        # photon ends on the entry mode): the mode layout differs, so "base followed by the basis changes" is judged on what it means - the heralded dual-rail
+        # amplitudes are those of the base circuit transformed by the tensor product of the single-qubit operators (one photon per rail pair is conserved by them)
+        ab = dual_amplitudes(env, base, in_vis, n)
+        ac = dual_amplitudes(env, c, in_vis, n)
+        B = list(basis(n))
+        want = []
+        for bo in B:
+            acc = env.const(0)
+            for k_, bi in enumerate(B):
+                w = env.const(1)
+                for q in range(n):
+                    w = w * ops[q][bo[q]][bi[q]]
+                acc = acc + w * ab[k_]
+            want.append(acc)
+        ref = None
+        for x, y in zip(ac, want):
+            yz = y.simp().n.is_zero() if env.mode == "exact" else abs(y) < 1e-9
+            if not yz:
+                ref = x / y
+                break
+        if ref is None:
+            return False
+        if env.mode != "exact" and abs(abs(ref) - 1) > 1e-9:
+            return False
+        return all((x - ref * y).simp().n.is_zero() if env.mode == "exact" else abs(x - ref * y) < 1e-9 for x, y in zip(ac, want))
     if c.n_modes != base.n_modes or c.heralds != base.heralds:
         return False
     N = base.n_modes
@@ -460,6 +522,8 @@ def check_mle(env, n, tier):
 def _run(mode, which, n, tier, assignment=None):
     env = Env(mode, assignment)
     {"state": check_state_tomography, "li": check_li, "gate": check_gate_fidelity, "mle": check_mle}[which](env, n, tier)
+    if which == "state" and mode == "native" and n <= 2:
+        check_live_parameters(env, n)
     return env.obligations
 
 
